@@ -1,4 +1,5 @@
 import MdsVerif.Model.Slice
+import MdsVerif.Proofs.SliceDefs
 import MdsVerif.Proofs.Rot
 /-!
 # Glue: the list-backed `Model.Slice.rotateW` is the function-array model of `Proofs/Rot.lean`
@@ -30,10 +31,10 @@ theorem rotInner_sim (n k j : Nat) (hn : 0 < n) : ∀ (fuel : Nat) (l : List α)
     match rotInner n k j fuel l i cur with
     | some l' => l'.length = n ∧ Rot.inner n k j fuel (toFn l) i cur = some (toFn l')
     | none => Rot.inner n k j fuel (toFn l) i cur = none
-  | 0, _, _, _, _ => by simp [rotInner, Rot.inner]
+  | 0, _, _, _, _ => by simp [rotInner_zero, rotInner_succ, Rot.inner]
   | f + 1, l, i, cur, hl => by
     have hnext : (i + k) % n < l.length := by rw [hl]; exact Nat.mod_lt _ hn
-    simp only [rotInner, Rot.inner]
+    simp only [rotInner_zero, rotInner_succ, Rot.inner]
     by_cases he : (i + k) % n = j
     · simp only [if_pos he]
       exact ⟨by simp [hl], by rw [toFn_set l _ cur hnext]⟩
@@ -65,9 +66,9 @@ theorem gcdLoop_eq : ∀ (f a b : Nat), b < f → gcdLoop f a b = some (Nat.gcd 
   | 0, _, _, h => by omega
   | f + 1, a, b, h => by
     by_cases hb : b = 0
-    · subst hb; simp [gcdLoop]
+    · subst hb; simp [gcdLoop_zero, gcdLoop_succ]
     · have hlt : a % b < b := Nat.mod_lt _ (by omega)
-      simp only [gcdLoop, ne_eq, hb, not_false_eq_true, if_true]
+      simp only [gcdLoop_zero, gcdLoop_succ, ne_eq, hb, not_false_eq_true, if_true]
       rw [gcdLoop_eq f b (a % b) (by omega)]
       congr 1
       rw [Nat.gcd_comm a b, Nat.gcd_rec b a, Nat.gcd_comm]
@@ -100,7 +101,7 @@ def normK (n : Nat) (k : Int) : Nat := (if k < 0 then k + n else k).toNat
 /-- `Rotate` outside `-n ≤ k ≤ n` panics -/
 theorem rotateW_panic (ss : List α) (k : Int) (hk : k < -(ss.length : Int) ∨ (ss.length : Int) < k) :
     rotateW ss k = .panic "offset out of range" := by
-  unfold rotateW sliceCheck
+  simp only [rotateW_def, sliceCheck_def]
   by_cases hneg : k < 0
   · have : ¬ (k + (ss.length : Int) ≥ 0 ∧ k + (ss.length : Int) ≤ ss.length) := by omega
     simp only [hneg, if_true, decide_eq_false this]
@@ -117,7 +118,7 @@ theorem rotateW_eq (ss : List α) (k : Int) (hk : -(ss.length : Int) ≤ k ∧ k
       else match rotOuter ss.length (normK ss.length k) (Nat.gcd (normK ss.length k) ss.length) 0 ss with
         | some r => .ok r
         | none => .hang := by
-  unfold rotateW sliceCheck normK
+  simp only [rotateW_def, sliceCheck_def]; unfold normK
   by_cases hneg : k < 0
   · have h1 : (k + (ss.length : Int) ≥ 0 ∧ k + (ss.length : Int) ≤ ss.length) := by omega
     simp only [hneg, if_true, h1, and_self, decide_true, Bool.not_true, Bool.false_eq_true, if_false]
